@@ -1118,6 +1118,12 @@ static int _GD_Change(DIRFILE *D, const char *field_code, const gd_entry_t *N,
     memcpy(E, &Q, sizeof(gd_entry_t));
     D->fragment[E->fragment_index].modified = 1;
     D->flags &= ~GD_HAVE_VERSION;
+
+    /* the changed field may be (an input of) an input of any MPLEX: forget
+     * the start values they cached from earlier reads */
+    for (i = 0; i < (int)D->n_entries; ++i)
+      if (D->entry[i]->field_type == GD_MPLEX_ENTRY && D->entry[i]->e)
+        D->entry[i]->e->u.mplex.type = GD_NULL;
   }
 
   dreturn("%i", 0);
